@@ -58,6 +58,50 @@ def encode_reach(cg, cls):
     return seen
 
 
+def clean_value_rule(ctx, rid):
+    """clean_bit_string_value evaluated on (octets, bit count, named bits) cases; shared by C03.R3 and C01.R3"""
+    model = ctx.model
+    from .. import evalexpr as _ev
+    cbv = model.mod('asn1tools/codecs/compiler.py').functions.get('clean_bit_string_value')
+    if cbv is None:
+        raise AnalysisError('codecs/compiler.py: clean_bit_string_value vanished')
+    cp = flow.param_names(cbv)
+    n_ok = n_und = 0
+    bad = None
+    und = ''
+    samples = [(b'', 0), (b'\xff', 8), (b'\xff', 1), (b'\xff', 7), (b'\xff\x01', 16), (b'\xff\x00', 16), (b'\xff\x01', 15), (b'\xff\x01', 9), (b'\x80', 1), (b'\x80\xff', 1),
+               (b'\x00\x00\x01', 24), (b'\x00\x00\x01', 23), (b'\x12\x34\x56', 24), (b'\x12\x34\x56', 20), (b'\x12\x34\x56\x78', 24), (b'\xa5', 8), (b'\xa5', 4), (b'\x00', 8),
+               (b'\x00\x80', 9), (b'\xf0\x0f', 16), (b'\xf0\x0f', 12)]
+    for octs, nb in samples:
+        bits = ''.join(format(o_, '08b') for o_ in octs)[:nb]
+        for named in (False, True):
+            keep = bits.rstrip('0') if named else bits
+            want_bytes = bytes(int(keep[i_:i_ + 8].ljust(8, '0'), 2) for i_ in range(0, len(keep), 8))
+            want = (want_bytes, len(keep))
+            try:
+                got, _e = _ev.run_function(cbv, {cp[0]: (octs, nb), cp[1]: named})
+            except (_ev.Unsupported, _ev.Raised) as e_:
+                n_und += 1
+                und = und or str(e_)[:80]
+                continue
+            try:
+                got_n = (bytes(got[0]), got[1])
+            except Exception:
+                got_n = got
+            if got_n == want:
+                n_ok += 1
+            elif bad is None:
+                bad = (octs, nb, named, got_n, want)
+    ctx.instance(rid, 'clean_bit_string_value on %d (octets, bit count, named bits) cases (%d undecided)' % (n_ok + (1 if bad else 0), n_und),
+                 'VIOLATION' if bad else ('ok' if n_ok > n_und else 'undecided'), und, nontrivial=n_ok > n_und, node=cbv, file='asn1tools/codecs/compiler.py')
+    if bad:
+        octs, nb, named, got_n, want = bad
+        ctx.violation(rid, 'asn1tools/codecs/compiler.py', cbv, Model.qual(cbv),
+                      'clean_bit_string_value((%r, %d), %s) gives %r, the value itself is %r: a bit that belongs to the value is cleared (or an unused one kept), so two different BIT STRINGs '
+                      'compare equal to a DEFAULT (the component is omitted and decodes to the default) or equal ones differ' % (octs, nb, named, got_n, want), stmt='cleaned value')
+
+
+
 def check(ctx):
     model = ctx.model
     cg = CallGraph(model)
@@ -180,6 +224,11 @@ def check(ctx):
         ctx.instance('C03.R3', '%s compares cleaned values' % Model.qual(f), 'ok' if ok else 'VIOLATION', node=f, file=rel)
         if not ok:
             ctx.violation('C03.R3', rel, f, Model.qual(f), 'BIT STRING default comparison must ignore unused bits / trailing zero named bits on both sides', stmt='cleaned comparison')
+
+    # what "cleaned" means, decided by evaluation (sa/evalexpr.py) of clean_bit_string_value on (octets, bit count) pairs: the first n bits are kept as they are --
+    # all eight of the last octet when n is a multiple of 8 --, the unused bits of the last octet are zeroed, surplus octets dropped; with named bits trailing
+    # zero bits are removed.  Two values clean to the same result exactly if they are the same BIT STRING.
+    clean_value_rule(ctx, 'C03.R3')
 
     # a transparent wrapper built around an arbitrary compiled type (the inner type object is a constructor argument and the value is handed to it
     # unchanged) decides "equal to the DEFAULT" with the inner type's own is_default: the inner type may specialise the comparison (BIT STRING)
